@@ -5,6 +5,7 @@ import apigen
 import canon
 import core
 import oracles
+import sx
 from props import c01, common
 
 
@@ -28,7 +29,8 @@ def check_spec(spec):
     for o in p._operations:
         for a in list(o.get("args", [])) + list(o.get("kwargs", {}).values()):
             if isinstance(a, np.ndarray) and a.size and a.dtype.kind in "if":
-                a.flat[0] = a.flat[0] + 1 if abs(a.flat[0]) < 1e15 else 0
+                with core.quiet():
+                    a.flat[0] = a.flat[0] + 1 if abs(float(a.flat[0])) < 1e15 else 0
                 with core.quiet():
                     try:
                         t_now = blackbird.dumps(p)
@@ -42,6 +44,77 @@ def check_spec(spec):
                             "; ".join(d2[:2]) or "text differs from that of a deep copy"), text
                 return None, text
     return None, text
+
+
+def fmt_laws(ctx):
+    """The three facts about CPython's number formatting that the C01/C09 theorems assume (`LawfulFmt`),
+    checked on the interpreter that runs the implementation: repr(x) starts with '-' exactly for a set sign
+    bit and float(repr(abs(x))) == abs(x); repr(abs(x)) is ONE token of kind FLOAT for the shipped lexer and
+    for the model lexer; the complex literal written by the serialiser is one COMPLEX token that the model's
+    reader splits back into the two parts."""
+    import math
+    import struct
+    from props import c14 as _c14
+    pool = [0.0, -0.0, 5e-324, -5e-324, 2.2250738585072014e-308, 1e-300, 1e300, 1.7976931348623157e308, 1e16, 1e15,
+            123456789012345678.0, 0.1, 1 / 3, 2.5, 1e-5, 1e-4, 0.0001, 100000.0, 1e22, 1e21, 9007199254740993.0]
+    for _ in range(ctx.n(1500, 15000)):
+        bits = ctx.rng.getrandbits(64)
+        x = struct.unpack("<d", struct.pack("<Q", bits))[0]
+        if math.isfinite(x):
+            pool.append(x)
+    lex_lines, lex_keep, cplx_lines, cplx_keep = [], [], [], []
+    bad = 0
+    for x in pool:
+        t = repr(abs(x))
+        neg = math.copysign(1.0, x) < 0
+        if repr(x).startswith("-") != neg or float(t) != abs(x) or (neg and -float(t) != x):
+            ctx.disagree("formatting law: repr(%r) = %r does not read back" % (x, repr(x)),
+                         {"kind": "correspondence", "cmd": "FMT", "x": repr(x)})
+            bad += 1
+            continue
+        toks = _c14.real_lex(t)
+        if len(toks) != 1 or toks[0][0] != "FLOAT" or toks[0][1] != t:
+            ctx.disagree("formatting law: repr(abs(x)) = %r is not one FLOAT token: %r" % (t, toks),
+                         {"kind": "correspondence", "cmd": "FMT", "text": t})
+            bad += 1
+            continue
+        lex_lines.append(core.cmd("LEX", t))
+        lex_keep.append(t)
+    # complex literals as the serialiser writes them
+    for _ in range(ctx.n(400, 4000)):
+        a, b = ctx.rng.choice(pool), ctx.rng.choice(pool)
+        text = "%r%s%rj" % (a, "+-"[b < 0], abs(b))
+        toks = _c14.real_lex(text)
+        if len(toks) != 1 or toks[0][0] != "COMPLEX":
+            ctx.disagree("formatting law: complex literal %r is not one COMPLEX token: %r" % (text, toks),
+                         {"kind": "correspondence", "cmd": "FMT", "text": text})
+            bad += 1
+            continue
+        cplx_lines.append(core.cmd("LOADS", "name a\nversion 1.0\n\nG(%s) | 0\n" % text, "/"))
+        cplx_keep.append((text, a, abs(b) * (-1 if b < 0 else 1)))
+    outs = core.model_batch(lex_lines)
+    for t, o in zip(lex_keep, outs):
+        ks = [x.split(":")[0] for x in o.split(" ") if x and not x.startswith("EOF:")]
+        if ks != ["FLOAT"]:
+            ctx.disagree("formatting law: the model lexer reads %r as %s" % (t, ks), {"kind": "correspondence", "cmd": "FMT", "text": t})
+            bad += 1
+        else:
+            ctx.traces += 1
+    outs = core.model_batch(cplx_lines)
+    for (text, a, b), o in zip(cplx_keep, outs):
+        m = sx.dec_result(o)
+        try:
+            v = m[1]["ops"][0]["args"][0][0]
+            ok = v[0] == "c" and v[1].real == a and v[1].imag == b
+        except Exception:  # noqa: BLE001
+            ok = False
+        if not ok:
+            ctx.disagree("formatting law: the model reads the complex literal %r as %r" % (text, o[:200]),
+                         {"kind": "correspondence", "cmd": "FMT", "text": text})
+            bad += 1
+        else:
+            ctx.traces += 1
+    ctx.extra["formatting_law_checks"] = {"reals": len(pool), "complex_literals": len(cplx_keep), "failed": bad}
 
 
 def check_tdm_api(strs):
@@ -78,7 +151,7 @@ def run(ctx):
                 "(special pool: +-0.0, 5e-324, 2.2e-308, 1e+-300, 1e16, int64 bounds, 2**70), bools, quote-free "
                 "strings, lists of these in keyword position and in options, 2-D int/float/complex arrays (C order, Fortran order, transposed and strided views) up to "
                 "4x4, real SymPy expressions in named parameters, operations with and without arguments, NumPy "
-                "mode numbers; oracle: loads(dumps(p)) succeeds and equals p exactly (numbers ==, arrays element "
+                "mode numbers; the formatting hypotheses of the theorems (LawfulFmt) checked on 1500 / 15000 random doubles and the special pool; oracle: loads(dumps(p)) succeeds and equals p exactly (numbers ==, arrays element "
                 "by element, symbolic values semantically); model serialiser vs real dumps text; excluded (no "
                 "syntax exists, see open findings): positional list arguments, array-valued options; non-trivial "
                 "= at least one non-integer argument; distinct by specification")
@@ -109,3 +182,4 @@ def run(ctx):
             ctx.violation("API round trip (tdm): " + msg, {"kind": "tdm_api", "strs": strs})
     c01.dumps_corr(ctx, progs)
     c01.unparse_corr(ctx, progs)
+    fmt_laws(ctx)
